@@ -5,38 +5,54 @@ from common import VERIF
 READY = True
 
 META = {
-    "technique": "Lean 4 proof (two-tier template store refines a plain map + memo cache; history independence, "
-                 "failed insert is a no-op, stickiness, copy-on-write registries isolate clones — all by induction "
-                 "over arbitrary operation sequences) + differential random histories: real Environment vs. Lean model "
-                 "vs. freshly built environment with the same final contents; 8-thread stress for the runtime part",
+    "technique": "Lean 4 proof (two-tier template store with load-time configuration refines a plain map + memo cache; "
+                 "history independence of the whole environment value, failed insert/lookup are no-ops, re-add is a load, "
+                 "stickiness, templates() lists each name once, copy-on-write registries isolate clones, state identity — all by "
+                 "induction over arbitrary operation sequences; structural source facts regenerated from /repo) + differential "
+                 "random histories: real Environment vs. Lean model vs. freshly built environment in which every template is "
+                 "loaded under the load-time configuration of its last load; foreign-value and 8-thread streams for the runtime part",
     "category": "proof",
     "text": "Kernel-checked theorems about the model of LoaderStore (borrowed map + memoising owned map with mutual "
-            "eviction, loader, compile as a parameter) and of the Arc::make_mut registries: every operation commutes "
-            "with the abstraction to (explicit, cached) maps and returns the specification's answer; any two histories "
-            "ending in the same contents and loader are indistinguishable by every continuation; an addition that fails "
-            "to compile leaves the store identical; a template once found keeps its source until removed, re-added or "
-            "cleared (also across set_loader); operations on one environment leave its clones/original unchanged. "
-            "State identity: ids come from one process-wide counter, so a macro stamped by one render is refused by "
-            "every other render whatever thread it runs on (foreign_macro_rejected); mirrored by the foreign-value "
-            "stream (render-bound values exported from finished renders and used by other renders on the main "
-            "thread, new threads after 0..3 other renders, and concurrently: all results identical). "
-            "The model is tied to /repo by random histories (length <= 30, up to three live environments) over the "
-            "whole operation alphabet of the quantifier: after every step get_template/templates()/registries of every "
-            "live environment are compared with the Lean model, and get_template(n).render(ctx) for every name with a "
-            "freshly built environment holding the same contents (templates placed in random tiers and order). "
-            "PARTIAL: threads and thread-local/global caches (codegen buffer pools, INTERNAL_SERIALIZATION, "
-            "VALUE_HANDLES, small-int format cache) are not modelled; they are validated by failing "
-            "compiles/renders/serialisations interleaved in the histories and by 8 threads rendering concurrently "
-            "from the shared environment against single-threaded fresh-environment results.",
+            "eviction, loader, load-time TemplateConfig; compile as a parameter that may depend on the configuration; a stored "
+            "template = (source, load-time configuration it was compiled under)), of the run-time settings and of the "
+            "Arc::make_mut registries: every operation commutes with the abstraction to (explicit, cached) maps and returns the "
+            "specification's answer; an environment's behaviour is a function of its value (run-time configuration, load-time "
+            "configuration for future loads, loader, per template (source, load-time configuration at its last load), "
+            "registries): any two histories/worlds ending in the same value are indistinguishable by every continuation "
+            "(env_history_independent); an addition that fails to compile and a lookup that fails leave the store identical; "
+            "re-adding a template — also with identical source — is a load under the current configuration (readd_is_a_load); "
+            "a template once found keeps source and compilation until removed, re-added or cleared (also across set_loader and "
+            "configuration changes); templates() lists every name once; operations on one environment leave its clones/original "
+            "unchanged. State identity: ids come from one process-wide counter, so a macro stamped by one render is refused by "
+            "every other render whatever thread it runs on (foreign_macro_rejected). source_tables_match_model re-checks against "
+            "the current source: the load-time/run-time classification of every Environment::set_*, the TemplateConfig fields, the "
+            "event order of both insert_cow arms, the lookup order of get, the tiers of remove/clear, the static atomic STATE_ID, "
+            "the derived Clones. The model is tied to /repo by random histories (length <= 30, up to three live environments) over "
+            "the operation alphabet of the quantifier plus every configuration setter, re-adds of identical sources, an impure "
+            "loader, un-normalised names and template handles held across modifications of a clone: after every step the "
+            "get_template result (source + fingerprint of the real compilation), templates(), registries and both configurations "
+            "of every live environment are compared with the Lean model, and get_template(n).render(ctx) for every name with a "
+            "freshly built environment of the same value (templates placed in random tiers and order, each loaded under the "
+            "configuration of its last load). PARTIAL: threads and thread-local/global caches (codegen buffer pools, "
+            "INTERNAL_SERIALIZATION, VALUE_HANDLES, small-int format cache) and the atomicity of STATE_ID are not modelled; they "
+            "are validated by failing compiles/renders/serialisations interleaved in the histories, by the foreign-value stream "
+            "(render-bound values exported from finished renders and used by other renders on the main thread, new threads after "
+            "0..3 other renders, and concurrently) and by 8 threads rendering concurrently from the shared environment.",
     "design_ref": "DESIGN.md §3 C15",
-    "level_note": "Proved (kernel): sequential store/registry/clone behaviour of the model for all histories. Trusted: hand "
-                  "transcription of loader.rs LoaderStore::{insert_cow,remove,clear,get,set_loader,iter} and of the "
-                  "Arc<BTreeMap>+make_mut registries into MJ/Model/Store.lean (Arc strong count = number of handles is an "
-                  "assumption about std); checked on every run by the differential histories. Validated, NOT proved: "
-                  "rendering itself (the VM) being a function of the looked-up templates, registries and context — "
-                  "observed as equality with a fresh environment and on repetition; concurrency (8 threads, shared "
-                  "environment, MemoMap under its mutex) and absence of residue in thread-local pools after failing "
-                  "compiles/renders — sampled schedules only, no claim for all interleavings.",
+    "level_note": "Proved (kernel): sequential store/configuration/registry/clone behaviour of the model for all histories; state ids "
+                  "for all interleavings given one totally ordered counter. Trusted: hand transcription of loader.rs "
+                  "LoaderStore::{insert_cow,remove,clear,get,set_loader,iter}, of the Environment setters and of the "
+                  "Arc<BTreeMap>+make_mut registries into MJ/Model/Store.lean — its structural facts are re-extracted from the source "
+                  "every run (source_tables_match_model), its behaviour is checked by the differential histories (Arc strong count = "
+                  "number of handles and the total order of fetch_add are assumptions about std). Validated, NOT proved: rendering "
+                  "itself (the VM) being a function of the looked-up compiled templates, run-time configuration, registries and "
+                  "context — observed as equality with a fresh environment and on repetition; that a compiled template is a function "
+                  "of (name, source, load-time configuration) — observed through fingerprints of the real compiler's output for all 96 "
+                  "configurations x 18 sources x 5 names; concurrency (8 threads, shared environment, MemoMap under its mutex) and "
+                  "absence of residue in thread-local pools after failing compiles/renders — sampled schedules only, no claim for all "
+                  "interleavings. Template handles cannot outlive a modification of their own environment (borrow checker); handles "
+                  "held across modifications of a clone are validated. The order of templates() within the memo tier is HashMap "
+                  "order (unspecified): only the multiset is compared.",
 }
 
 QUICK_HISTORIES = 8_000
@@ -266,19 +282,24 @@ def process_foreign(r, exe, out):
 
 def run(r):
     r.rule = ("random histories (length 1..30, up to 3 live environments created by clone) over {add_template, "
-              "add_template_owned, remove_template, clear_templates, set_loader (5 tables), add/remove filter/test/global, "
-              "clone, render (3 contexts incl. a failing serialisation), failing compiles/renders, 8-thread phase}; 4 names x "
-              "16 sources (2 broken, 2 failing at run time, includes/extends/imports between the names). evaluations = "
-              "history steps (each step compares every name of every live environment); a history is non-trivial when it "
-              "is distinct, changes the store or loader and performs a lookup. Plus the foreign-value stream: 9 exporters "
-              "(macro, closure macro, namespace, set-export, module, caller, loop, from-import, nested macro) x 5 export "
+              "add_template_owned (incl. re-adds of the identical source and of what the loader delivers), remove_template (also "
+              "of un-normalised spellings), clear_templates, set_loader (6 tables, one impure: answers change with an outside "
+              "phase), set_trim_blocks/lstrip_blocks/keep_trailing_newline/syntax(3)/auto_escape_callback(4), "
+              "set_undefined_behavior(4)/formatter/debug/recursion_limit/fuel/path_join_callback/unknown_method_callback, "
+              "add/remove filter/test/global, clone, render (3 contexts incl. a failing serialisation), template handle held across "
+              "modifications of a clone, failing compiles/renders, 8-thread phase}; 5 names (one is './a') x 18 sources (every one "
+              "sensitive to each load-time setting; 2 broken, several failing at run time, includes/extends/imports between the "
+              "names). evaluations = history steps (each step compares every name of every live environment); a history is "
+              "non-trivial when it is distinct, changes the store or loader and performs a lookup. Plus the foreign-value stream: 9 "
+              "exporters (macro, closure macro, namespace, set-export, module, caller, loop, from-import, nested macro) x 5 export "
               "sites x 4 consumers x {context, global}, each used on the main thread, on new threads after 0..3 other "
               "renders, on the exporting thread and on 2x4 concurrent threads (all 14 results must be identical)")
     r.assumptions = ["Arc's strong count equals the number of live handles (std)",
-                     "the loader is a pure function of the name",
-                     "rendering is a function of the templates looked up, registries and context (validated against a fresh environment, not proved)",
-                     "thread schedules are sampled (8 threads x 12 renders per phase), not enumerated"]
-    r.regen_tables()
+                     "fetch_add on the process-wide STATE_ID is totally ordered (std atomics); no wrap-around within 2^64 states",
+                     "a loader closure answers as a function of the name and of the modelled outside phase (no hidden state of its own)",
+                     "rendering is a function of the compiled templates looked up, run-time configuration, registries and context (validated against a fresh environment, not proved)",
+                     "thread schedules are sampled (8 threads x 12 renders per phase; 14 variants per foreign-value case), not enumerated"]
+    r.regen_tables(["C15_SETTERS", "C15_TEMPLATE_CONFIG", "C15_INSERT_ARMS", "C15_GET_ORDER", "C15_REMOVE_CLEAR", "C15_STATE_ID", "C15_CLONE_DERIVES"])
     r.lean_prove("MJ.Props.C15", "MJ/Audit/C15.lean", extra_targets=["drive_c15"])
     exe = r.cargo_build("c15")
     if exe is None:
